@@ -172,9 +172,13 @@ PROPS.update({
         "trusted_base": [T_PY, T_SMT, T_ANTLR, T_STRLIB, T_OS],
         "assumptions": _AGG_ASSUME + [
             "re.sub('\\.cmake$', '', s) is kept uninterpreted (A3): 'drops the .cmake extension' is its documented meaning",
-            "the file's relative path differs from the separator string (precondition of document_single_file)",
-            "default prefix = name of the input directory and injectivity of page names for different relative paths: "
-            "document()'s prefix computation is covered by the bounded tree driver only (document() is not under contract)",
+            "a relative path that EQUALS the separator string is replaced by the bare prefix (the code's special case; the "
+            "names clause of document_single_file exempts it)",
+            "the names clause of document_single_file is over its locals header_name/module_name - that these are the "
+            "arguments of the Documenter constructor two lines later is read off the source, not proved",
+            "default prefix = name of the input directory: proved as a ghost postcondition of document() under C13-C15/C17/C18 "
+            "(document() is not re-verified under C12: the bounded tree driver checks the titles of real runs, incl. several "
+            "inputs per run); injectivity of page names for different relative paths is not proved",
             "split/join inverse for the module doccomment's first line (T-STRLIB)"],
         "bounded_rule": BOUNDED_RULE,
     },
